@@ -40,6 +40,10 @@ BODY = b"field=value&n=1"
 CONTENT_HEADERS = [("Content-Type", "application/x-www-form-urlencoded"), ("Content-Language", "en"),
                    ("Content-Encoding", "identity"), ("Content-Location", "/orig"),
                    ("Digest", "sha-256=abc"), ("Last-Modified", "Mon, 01 Jan 2024 00:00:00 GMT")]
+# field names are case-insensitive: outside family F4 the caller spells them the way callers do
+CONTENT_HEADERS_MIXED = [("content-type", "application/x-www-form-urlencoded"), ("CONTENT-LANGUAGE", "en"),
+                         ("Content-encoding", "identity"), ("Content-Location", "/orig"),
+                         ("digest", "sha-256=abc"), ("Last-modified", "Mon, 01 Jan 2024 00:00:00 GMT")]
 KEEP = ("X-Keep", "k1")
 # names that must be gone after a 303 (statement: "body-less GET without content headers";
 # design: Content-*/Digest/Last-Modified) -- only names the caller actually sent are demanded
@@ -405,7 +409,7 @@ def make_case(fam, hops, mode):
             "break_first": 1 if fam[0] == "F3" else 0,
             "body": BODY if post else None,
             "ctor_headers": [["Content-Type", "application/x-from-defaults"], ["Content-Language", "xx"], ["X-Default", "d"]] if fam[0] == "F4" else None,
-            "headers": [list(h) for h in (CONTENT_HEADERS if fam[0] == "F4" else (CONTENT_HEADERS if post else CONTENT_HEADERS[:1]) + [KEEP])],
+            "headers": [list(h) for h in (CONTENT_HEADERS if fam[0] == "F4" else (CONTENT_HEADERS_MIXED if post else CONTENT_HEADERS_MIXED[:2]) + [KEEP])],
             "header_container": "dict", "req_policy": pl[0], "ctor_policy": pl[1], "redirect_kw": pl[2]}
 
 
